@@ -47,6 +47,7 @@ def gen_input(rnd, idn, maxN=3, maxK=3):
         opts['maxShard'] = 9
     allok = rnd.random() < (0.55 if fam != 'unsynced' else 0.0)
     owner = {t: rnd.randrange(n) for t in targets}      # scaledown / relief: one holder per target
+    relief_free = rnd.choice(targets + [0, 0])
     badpos, badmode = -1, 'ok'
     if fam == 'scaledown' and rnd.random() < 0.5:
         # exactly one shard that is not in sync, anywhere (also in front of the shards being emptied)
@@ -70,7 +71,8 @@ def gen_input(rnd, idn, maxN=3, maxK=3):
                     e['total'] = e['series'] + rnd.choice([0, 0, 2, 5])
                     rep.append(e)
             elif fam == 'relief':
-                if owner[t] == i or rnd.random() < 0.1:
+                # some targets stay unscraped: relief and first assignments meet in the same cycle
+                if (owner[t] == i and (t != relief_free)) or rnd.random() < 0.1:
                     e = mk_entry(rnd, t, maxHead, maxProc)
                     e.update(state=rnd.choice(['', '', '', '', 'in_transfer']), health='up', times=rnd.choice([3, 4, 7, 7, 1]),
                              series=rnd.choice([2, 3, 5, 6, 8, 9]))
@@ -109,13 +111,13 @@ def gen_input(rnd, idn, maxN=3, maxK=3):
     active = [t for t in targets if rnd.random() < (0.85 if fam != 'scaledown' else 0.97)]
     explore = []
     for t in targets:
-        if rnd.random() < 0.75 or fam in ('scaledown', 'oversized'):
+        if rnd.random() < 0.75 or fam in ('scaledown', 'oversized') or (fam == 'relief' and t == relief_free):
             e = mk_entry(rnd, t, maxHead, maxProc)
             e['state'] = ''
             e['times'] = 0
             if rnd.random() < 0.7:
                 e['health'] = 'up'
-            if fam == 'scaledown':
+            if fam == 'scaledown' or (fam == 'relief' and t == relief_free):
                 e.update(series=rnd.choice([1, 2, 3]), health='up')
                 e['total'] = e['series'] + rnd.choice([0, 2])
             if fam == 'oversized' and rnd.random() < 0.6:
